@@ -146,6 +146,7 @@ func runC09(p *Prog, r *Report) {
 	r.Floor("C09.R4", lockOpsOf(p, roots), 40, "lock acquisitions on call paths from entry points")
 	nLocks := c09Pairing(p, r, "C09.R3", "")
 	r.Floor("C09.R3", nLocks, 25, "lock acquisitions")
+	c09AtomicRMW(p, r, "C09.R10")
 	r.Floor("C09.R9", c09LockOrder(p, r, "C09.R9", roots), 3, "nested lock acquisitions")
 	r.Floor("C09.R8", c09PanicSafe(p, r, "C09.R8", ""), 5, "critical sections that may run user-supplied code")
 	r.Floor("C09.R7", c09GetOrCreate(p, r, "C09.R7", roots), 2, "get-or-create insertions into shared maps")
@@ -671,6 +672,60 @@ func c09LockOrder(p *Prog, r *Report, rule string, roots []*types.Named) int {
 		}
 		if len(seen) == 0 && len(first) > 0 {
 			r.Pass(rule, tn+": nested lock acquisitions follow one order", "-", fmt.Sprintf("%d (held -> acquired) pairs over all call paths, no pair in both directions", len(first)))
+		}
+	}
+	return n
+}
+
+// c09AtomicRMW (R10): "no counter update is lost". A value that is read with atomic.Load*, changed and
+// written back with atomic.Store* to the same address is a read-modify-write that is not atomic (each
+// half is): concurrent updates overwrite each other although the race detector is silent. Updates of
+// atomics go through Add* / CompareAndSwap* (or a lock).
+func c09AtomicRMW(p *Prog, r *Report, rule string) int {
+	n := 0
+	for _, fn := range p.ModuleFuncs() {
+		if root := enclosingRoot(fn); root.Pkg == nil || strings.Contains(root.Pkg.Pkg.Path(), "/testutils") || isClockPkg(fn) {
+			continue
+		}
+		for _, c := range Calls(fn) {
+			o := calleeObj(c.Common())
+			if o == nil || o.Pkg() == nil || o.Pkg().Path() != "sync/atomic" {
+				continue
+			}
+			n++
+			if !strings.HasPrefix(o.Name(), "Store") || len(c.Common().Args) < 2 {
+				continue
+			}
+			addr := c.Common().Args[0]
+			var bad ssa.Instruction
+			seen := map[ssa.Value]bool{}
+			var walk func(v ssa.Value, d int)
+			walk = func(v ssa.Value, d int) {
+				if v == nil || d > 10 || seen[v] {
+					return
+				}
+				seen[v] = true
+				switch x := v.(type) {
+				case *ssa.Call:
+					if o2 := calleeObj(x.Common()); o2 != nil && o2.Pkg() != nil && o2.Pkg().Path() == "sync/atomic" && strings.HasPrefix(o2.Name(), "Load") && len(x.Common().Args) > 0 && sameValue(x.Common().Args[0], addr) {
+						bad = x
+					}
+				case *ssa.BinOp:
+					walk(x.X, d+1)
+					walk(x.Y, d+1)
+				case *ssa.UnOp:
+					walk(x.X, d+1)
+				case *ssa.Convert:
+					walk(x.X, d+1)
+				case *ssa.Phi:
+					for _, e := range x.Edges {
+						walk(e, d+1)
+					}
+				}
+			}
+			walk(c.Common().Args[1], 0)
+			r.Check(bad == nil, rule, "atomic store in "+FName(fn)+" does not write back a value derived from a load of the same word", p.InstrPos(c), "no Load -> compute -> Store on one address",
+				"the stored value is computed from an atomic load of the same address: two concurrent updates both read the old value and one is lost (use atomic.Add / CompareAndSwap, or the mutex)")
 		}
 	}
 	return n
